@@ -13,6 +13,10 @@ Proof: coq/theories/Props/C03.v.  Tie (all comparisons are made inside Coq on ex
 (D) the raw generator elsignatures(mult, mode, emax) for molecules with any numbers of levels;
 (E) dipole_dipole_interaction / Aggregate.dipole_dipole_coupling / set_coupling_by_dipole_dipole on dyadic
     geometries against Model.C03.dipole_dipole over Q with sqrt as an oracle value (1e-12 relative).
+(A') after every such build the life cycle a user may go through on the same object - diagonalize(), renewed
+    getters, reading inside and after eigenbasis_of(H), a second build(), rebuild(), diagonalize() again - must
+    leave the site-basis H and dipole operator handed out bit-equal to the first ones (and, at the end, equal to
+    the model inside Coq); DD/D2/HD of the diagonalized aggregate must be S^T D S, its square, the eigenvalues;
 Monitors on the implementation's outputs: completeness/uniqueness/band order of the states, the Frenkel
 rule evaluated independently on signatures, selection rule of the dipole operator, symmetry, spectrum and
 dipole-strength spectrum under relabelling (eigh: oracle), units independence, sqrt oracle, and the
@@ -160,6 +164,112 @@ def stick_spectrum(H, DD, Nb):
     spec = numpy.array([numpy.sum(strength / ((w - ee) ** 2 + 1.0)) for w in grid])
     return ee, spec
 
+
+def reset_manager():
+    import quantarhei as qr
+    m = qr.Manager()
+    m.basis_stack = [0]
+    m.basis_transformations = [1]
+    m.basis_registered = {}
+    m._in_eigenbasis_of_context = False
+    m.current_basis_operator = None
+
+
+def invariants(H, T):
+    """basis-independent joint invariants of a Hamiltonian and a dipole operator"""
+    import numpy
+    out = []
+    for n in range(3):
+        for m in range(n, 3):
+            A, B = T[:, :, n], T[:, :, m]
+            out += [numpy.trace(A.dot(B)), numpy.trace(H.dot(A).dot(B)), numpy.trace(H.dot(A).dot(H).dot(B))]
+    return numpy.array(out, dtype=float)
+
+
+def lifecycle(chk, c, agg, o):
+    """what a user does with a built aggregate afterwards must not disturb the site-basis operators handed out:
+    diagonalize(), renewed getters, reading inside / after eigenbasis_of, a second build and rebuild().
+    Returns the observations after the whole sequence (for the exact tie) or None."""
+    import numpy
+    import quantarhei as qr
+    reset_manager()
+    H0, T0, DD0 = o["H"].copy(), o["T"].copy(), o["DD"].copy()
+    n = H0.shape[0]
+    hs = max(1.0, float(numpy.max(numpy.abs(H0))))
+    ds = max(1.0, float(numpy.max(numpy.abs(T0))))
+    what = "Aggregate.build(mult=%d), %d molecules, then " % (c["mult"], len(c["energies"]))
+
+    def same_site(step, sig):
+        H = numpy.array(agg.get_Hamiltonian()._data)
+        T = numpy.array(agg.get_TransitionDipoleMoment()._data)
+        if not numpy.array_equal(H, H0):
+            chk.violation("lifecycle:%s:H" % sig, what + step + ": get_Hamiltonian() no longer returns the site-basis Frenkel matrix "
+                          "(max deviation %.3g)" % float(numpy.max(numpy.abs(H - H0))), "monitor", c)
+            return False
+        if not numpy.array_equal(T, T0):
+            chk.violation("lifecycle:%s:D" % sig, what + step + ": get_TransitionDipoleMoment() no longer returns the site-basis dipole operator "
+                          "(max deviation %.3g); it is tagged as site basis" % float(numpy.max(numpy.abs(T - T0))), "monitor", c)
+            return False
+        return True
+    ok = True
+    # ---- diagonalize()
+    agg.diagonalize()
+    chk.count("lifecycle:diagonalize")
+    ok &= same_site("diagonalize()", "diagonalize")
+    SS = numpy.array(agg.SS)
+    if numpy.max(numpy.abs(SS.T.dot(SS) - numpy.eye(n))) > 1e-10:
+        chk.violation("lifecycle:eigh_oracle", "eigenvector matrix of diagonalize() is not orthogonal", "monitor", c)
+    if numpy.max(numpy.abs(SS.T.dot(H0).dot(SS) - numpy.diag(agg.HD))) > 1e-9 * hs or \
+            numpy.max(numpy.abs(numpy.array(agg.HH) - numpy.diag(agg.HD))) > 1e-9 * hs:
+        chk.violation("lifecycle:diagonalize:HD", what + "diagonalize(): HD/HH are not the eigenvalues of the Frenkel matrix", "monitor", c)
+    DDx = numpy.array(agg.DD)
+    want = numpy.stack([SS.T.dot(DD0[:, :, x]).dot(SS) for x in range(3)], axis=2)
+    if numpy.max(numpy.abs(DDx - want)) > 1e-9 * ds:
+        chk.violation("lifecycle:diagonalize:DD", what + "diagonalize(): DD is not S^T D_site S of the site dipoles (max deviation %.3g)"
+                      % float(numpy.max(numpy.abs(DDx - want))), "monitor", c)
+    if numpy.max(numpy.abs(numpy.array(agg.D2) - numpy.sum(want * want, axis=2))) > 1e-9 * ds * ds:
+        chk.violation("lifecycle:diagonalize:D2", what + "diagonalize(): D2 is not the squared exciton dipole", "monitor", c)
+    # ---- reading inside and after eigenbasis_of
+    inv0 = invariants(H0, T0)
+    isc = max(1.0, float(numpy.max(numpy.abs(inv0))))
+    Hop, Top = agg.get_Hamiltonian(), agg.get_TransitionDipoleMoment()
+    try:
+        with qr.eigenbasis_of(Hop):
+            Hin = numpy.array(Hop.data)
+            Tin = numpy.array(Top.data)
+        off = Hin - numpy.diag(numpy.diag(Hin))
+        if numpy.max(numpy.abs(off)) > 1e-9 * hs or numpy.max(numpy.abs(numpy.sort(numpy.diag(Hin)) - numpy.linalg.eigvalsh(H0))) > 1e-9 * hs:
+            chk.violation("lifecycle:eigenbasis:H", what + "diagonalize(): inside eigenbasis_of(H) the Hamiltonian is not diag(eigenvalues)", "monitor", c)
+        dev = float(numpy.max(numpy.abs(invariants(Hin, Tin) - inv0)))
+        if dev > 1e-8 * isc:
+            chk.violation("lifecycle:eigenbasis:D", what + "diagonalize(): inside eigenbasis_of(H) the dipole operator is not the transformed site "
+                          "operator (basis-independent invariants tr(D_n D_m), tr(H D_n D_m), tr(H D_n H D_m) deviate by %.3g)" % dev, "monitor", c)
+        Hout, Tout = numpy.array(Hop._data), numpy.array(Top._data)
+        if numpy.max(numpy.abs(Hout - H0)) > 1e-9 * hs or numpy.max(numpy.abs(Tout - T0)) > 1e-9 * ds:
+            chk.violation("lifecycle:eigenbasis:restore", what + "diagonalize() and a passage through eigenbasis_of(H): operators do not come back "
+                          "to the site-basis Frenkel ones (%.3g, %.3g)" % (float(numpy.max(numpy.abs(Hout - H0))), float(numpy.max(numpy.abs(Tout - T0)))),
+                          "monitor", c)
+    finally:
+        reset_manager()
+    # ---- a second build of the same object, then rebuild()
+    o2 = None
+    for step, fn in (("diagonalize() and a second build()", lambda: agg.build(mult=c["mult"])),
+                     ("diagonalize(), build() and rebuild()", lambda: agg.rebuild(mult=c["mult"]))):
+        try:
+            fn()
+        except Exception as e:
+            chk.count("lifecycle:%s refused" % step.split()[-1])
+            continue
+        chk.count("lifecycle:" + step.split()[-1])
+        ok &= same_site(step, "rebuild")
+        o2 = observe(agg)
+        if not (numpy.array_equal(o2["DD"], DD0) and o2["elsigs"] == o["elsigs"] and o2["Nb"] == o["Nb"] and o2["which_band"] == o["which_band"]):
+            chk.violation("lifecycle:rebuild:state", what + step + ": DD / elsigs / Nb differ from the first build", "monitor", c)
+        agg.diagonalize()
+        ok &= same_site(step + " and diagonalize()", "rebuild")
+        o2 = observe(agg)
+        o2["DD"] = o2["T"]          # the tie compares the operator handed out with the model
+    return o2
 
 # ------------------------------------------------------------------ generators
 def gen_build(r, k, tier):
@@ -353,6 +463,14 @@ def run(chk, cases):
                         cm.clist([nl(s) for s in o["elsigs"]]),
                         nl(o["which_band"]), nl(o["Nb"]))
                     groups["build"].append((item, c))
+                if twolevel and not c.get("asym") and c["mult"] >= 1:      # the property quantifies over mult 1 and 2
+                    o3 = lifecycle(chk, c, agg, o)
+                    if o3 is not None and isint(o3["H"]) and isint(o3["DD"]):
+                        item3 = "(%d%%nat, %d%%nat, %s, %s, %s, true, (%s, %s, %s, %s, %s))" % (
+                            N, c["mult"], zmatl(c["energies"]), zmatl(c["J"]), zmatl(c["dip"]),
+                            zmatl(o3["H"]), cm.clist([zmatl(row) for row in o3["DD"]]), cm.clist([nl(s) for s in o3["elsigs"]]),
+                            nl(o3["which_band"]), nl(o3["Nb"]))
+                        groups["build"].append((item3, dict(c, after="diagonalize/build/rebuild/diagonalize")))
                 chk.case(canon, N >= 2 and c["mult"] >= 1 and any(any(row) for row in c["J"]),
                          sample={"case": c, "elsigs": o["elsigs"][:8], "Nb": o["Nb"], "H_row1": o["H"][min(1, len(o["H"]) - 1)].tolist()})
             elif kind == "perm":
